@@ -203,6 +203,8 @@ func cmdRun(args []string) int {
 		nsh = 1
 	}
 	self, _ := os.Executable()
+	covDir := filepath.Join(work, "cov")
+	os.MkdirAll(covDir, 0o755)
 	watchdog := 20 * time.Minute
 	if *tier == "thorough" {
 		watchdog = 90 * time.Minute
@@ -223,7 +225,7 @@ func cmdRun(args []string) int {
 			errf, _ := os.Create(base + ".stderr")
 			cmd.Stderr = errf
 			cmd.Stdout = errf
-			cmd.Env = append(os.Environ(), "GORACE=halt_on_error=0 exitcode=0 log_path="+base+".race", "GOTRACEBACK=all")
+			cmd.Env = append(os.Environ(), "GORACE=halt_on_error=0 exitcode=0 log_path="+base+".race", "GOTRACEBACK=all", "GOCOVERDIR="+covDir)
 			if err := cmd.Start(); err != nil {
 				cres[s].err = err
 				return
@@ -278,6 +280,14 @@ func cmdRun(args []string) int {
 	}
 	if e.Post != nil {
 		e.Post(res, work, *tier, seed)
+	}
+	// coverage probe: which anchor functions of the property did the workload reach (compiler instrumentation, by function name)
+	if anchors, unreached, total := coverageProbe(covDir, e.Anchors); total > 0 {
+		res.Extra["anchors"] = anchors
+		res.Extra["mux_functions_reached"] = total
+		for _, a := range unreached {
+			inconclusive = append(inconclusive, "anchor function never entered by the workload: "+a)
+		}
 	}
 
 	// known findings
@@ -467,4 +477,70 @@ func cmdReplay(args []string) int {
 		fmt.Printf("VIOLATION property=%s replay=%s :: %s\n%s\n", x.Prop, args[0], x.Msg, d)
 	}
 	return 1
+}
+
+// coverageProbe runs `go tool covdata func` over the children's counter files
+// and returns, for the property's anchor functions, the percentage of
+// statements executed. Anchors are matched by function name (receiver and type
+// parameters stripped), so moved lines do not break the probe; an anchor that
+// no longer exists is reported as "not found" and ignored, one that exists but
+// was never entered makes the run inconclusive.
+func coverageProbe(covDir string, anchors []string) (map[string]any, []string, int) {
+	files, _ := filepath.Glob(filepath.Join(covDir, "covcounters.*"))
+	if len(files) == 0 {
+		return nil, nil, 0
+	}
+	out, err := exec.Command("go", "tool", "covdata", "func", "-i="+covDir).Output()
+	if err != nil {
+		return nil, nil, 0
+	}
+	type fn struct {
+		file, name string
+		pct        float64
+	}
+	var fns []fn
+	reached := 0
+	for _, line := range strings.Split(string(out), "\n") {
+		f := strings.Fields(line)
+		if len(f) != 3 || !strings.HasPrefix(f[0], "github.com/issue9/mux/v9/") {
+			continue
+		}
+		file := strings.TrimPrefix(f[0], "github.com/issue9/mux/v9/")
+		if i := strings.IndexByte(file, ':'); i >= 0 {
+			file = file[:i]
+		}
+		pct, _ := strconv.ParseFloat(strings.TrimSuffix(f[2], "%"), 64)
+		name := strings.TrimPrefix(f[1], "*")
+		fns = append(fns, fn{file, name, pct})
+		if pct > 0 {
+			reached++
+		}
+	}
+	res := map[string]any{}
+	var unreached []string
+	for _, a := range anchors { // "file.go:Func" or "Func"
+		wantFile, wantName := "", a
+		if i := strings.IndexByte(a, ':'); i >= 0 {
+			wantFile, wantName = a[:i], a[i+1:]
+		}
+		found, best := false, 0.0
+		for _, f := range fns {
+			if f.name == wantName && (wantFile == "" || strings.HasSuffix(f.file, wantFile)) {
+				found = true
+				if f.pct > best {
+					best = f.pct
+				}
+			}
+		}
+		switch {
+		case !found:
+			res[a] = "not found (renamed?)"
+		default:
+			res[a] = fmt.Sprintf("%.1f%% of statements executed", best)
+			if best == 0 {
+				unreached = append(unreached, a)
+			}
+		}
+	}
+	return res, unreached, reached
 }
